@@ -103,7 +103,7 @@ SSendEnd(p, e) ==
   LET o == SFind(p, e.s, "send", e.t)
       p1 == [p EXCEPT !.ops = @ \ {o}]
       peerGone == p.closed[SPeer(e.s)] \/ p.rst
-      common == [BusyResource |-> SBusyDue(p, o) => e.res = "busy",
+      common == [BusyResource |-> SBusyDue(p, o) => e.res \in {"busy", "cancelled"},
                  ClosedSendRaises |-> o.closed0 => e.res \in {"closed", "busy", "cancelled", "timeout"}]
   IN
   CASE e.res = "ok" ->
@@ -145,7 +145,7 @@ SRecvEnd(p, e) ==
   LET o == SFind(p, e.s, "recv", e.t)
       w == SPeer(e.s)                      \* the writer of the stream being read
       p1 == [p EXCEPT !.ops = @ \ {o}]
-      common == [BusyResource |-> SBusyDue(p, o) => e.res = "busy",
+      common == [BusyResource |-> SBusyDue(p, o) => e.res \in {"busy", "cancelled"},
                  ClosedReceiveRules |-> o.closed0 => e.res \in {"ok", "closed", "busy", "cancelled", "timeout"}]
   IN
   CASE e.res = "ok" ->
